@@ -18,28 +18,14 @@ func (s *Store) snapshotPrevious(ss Snapshot) (Snapshot, error) {
 		return nil, fmt.Errorf("snapshot not a footer")
 	}
 
-	slocs, _ := footer.segmentLocs()
+	footer.segmentLocs()
 	defer footer.DecRef()
 
-	if len(slocs) <= 0 {
-		return nil, nil
-	}
-
-	mref := slocs[0].mref
-	if mref == nil {
-		return nil, fmt.Errorf("footer mref nil")
-	}
-
-	mref.m.Lock()
-	if mref.refs <= 0 {
-		mref.m.Unlock()
-		return nil, fmt.Errorf("footer mmap has 0 refs")
-	}
-	fref := mref.fref
-	mref.m.Unlock() // Safe since the file beneath the mmap cannot change.
-
+	// The footer knows its file, also when the top-level collection has
+	// no persisted segments that would refer to it.
+	fref := footer.fref
 	if fref == nil {
-		return nil, fmt.Errorf("footer fref nil")
+		return nil, nil
 	}
 
 	fref.m.Lock()
